@@ -62,10 +62,29 @@ struct Shuffled {
   9: Inner2 inner
   1: bool flag
 }
+exception Boom {
+  1: string msg
+}
+struct Sparse {
+  1: string a
+  70: string b
+}
 service Svc {
-  Resp M(1: Req req) (api.post = "/m")
+  Resp M(1: Req req) throws (100: Boom err) (api.post = "/m")
   Small Cut(1: Small req)
   Shuffled Shuf(1: Shuffled req)
+  Sparse Sp(1: Sparse req)
+}
+`
+
+// a second, independent parse with UseDefaultValue: a response field with an IDL default delivered as raw body
+const defaultsIDL = `namespace go verif2
+struct RB {
+  1: string body = "PING-default-body" (api.raw_body = "")
+  2: i32 x
+}
+service Svc2 {
+  RB D(1: RB req)
 }
 `
 
@@ -124,6 +143,9 @@ var opNames = []string{
 	"j2t.HTTPConv.Do(form)",
 	"t2j.HTTPConv.Do",
 	"t2j.HTTPConv.Do(NoCopyString,header)",
+	"t2j.Do(sparse,field-70-absent)",
+	"t2j.Do(reply-wrapper,exception-100)",
+	"t2j.Do(http,raw_body from IDL default)",
 	"j2p.Do(nested)",
 	"p2j.Do(nested)",
 	"p2j.Do(int64str,nested)",
@@ -146,6 +168,9 @@ type op struct {
 
 type fixture struct {
 	svc      *thrift.ServiceDescriptor
+	svc2     *thrift.ServiceDescriptor // parsed with UseDefaultValue
+	hcResp2  *t2j.HTTPConv
+	sparseT  *thrift.TypeDescriptor
 	reqT     *thrift.TypeDescriptor
 	respT    *thrift.TypeDescriptor
 	smallT   *thrift.TypeDescriptor
@@ -265,7 +290,10 @@ func strBytes(s string) []byte {
 }
 
 // aliasSetter keeps the header value string itself (respSetter builds new strings).
-type aliasSetter struct{ header string }
+type aliasSetter struct {
+	header string
+	body   []byte
+}
 
 func (r *aliasSetter) SetStatusCode(c int) error { return nil }
 func (r *aliasSetter) SetHeader(k, v string) error {
@@ -275,7 +303,12 @@ func (r *aliasSetter) SetHeader(k, v string) error {
 	return nil
 }
 func (r *aliasSetter) SetCookie(k, v string) error { return nil }
-func (r *aliasSetter) SetRawBody(b []byte) error   { return nil }
+func (r *aliasSetter) SetRawBody(b []byte) error {
+	if r.body == nil {
+		r.body = b // the first body handed over (the field mapped to the raw body)
+	}
+	return nil
+}
 
 func newFixture() (*fixture, error) {
 	f := &fixture{inputs: map[string][]byte{}, sums: map[string]uint32{}}
@@ -290,6 +323,13 @@ func newFixture() (*fixture, error) {
 	f.respT = f.fnM.Response().Struct().FieldById(0).Type()
 	f.smallT = svc.Functions()["Cut"].Request().Struct().FieldById(1).Type()
 	f.shufT = svc.Functions()["Shuf"].Request().Struct().FieldById(1).Type()
+	f.sparseT = svc.Functions()["Sp"].Response().Struct().FieldById(0).Type()
+	svc2, err := thrift.Options{UseDefaultValue: true}.NewDescritorFromContent(ctx, "a/b/defaults.thrift", defaultsIDL, nil, false)
+	if err != nil {
+		return nil, fmt.Errorf("thrift idl 2: %v", err)
+	}
+	f.svc2 = svc2
+	f.hcResp2 = t2j.NewHTTPConv(meta.EncodingThriftBinary, svc2.Functions()["D"])
 	psvc, err := proto.NewDescritorFromContent(ctx, "a/b/main.proto", protoIDL, map[string]string{})
 	if err != nil {
 		return nil, fmt.Errorf("proto idl: %v", err)
@@ -315,6 +355,18 @@ func newFixture() (*fixture, error) {
 	wrapped, _ := thrift.WrapBinaryBody(tbin.Bytes(resp), "M", thrift.REPLY, 0, 1)
 	in["thrift-resp-msg"] = wrapped
 	in["pb-nested"] = protoReq(2)
+	in["thrift-sparse-without-70"] = tbin.Bytes(tbin.Struct(tbin.F(1, tbin.Str("only-a"))))
+	in["thrift-reply-exception"] = tbin.Bytes(tbin.Struct(tbin.F(100, tbin.Struct(tbin.F(1, tbin.Str("boom"))))))
+	{
+		// REPLY envelope around RB{2: 5} (field 1, the one with the default, is absent)
+		body := tbin.Bytes(tbin.Struct(tbin.F(0, tbin.Struct(tbin.F(2, tbin.I32v(5))))))
+		w, err := thrift.WrapBinaryBody(body[3:len(body)-1], "D", thrift.REPLY, 0, 1)
+		if err != nil {
+			return nil, err
+		}
+		in["thrift-resp-rb"] = w
+	}
+	in["thrift-rb-without-body"] = tbin.Bytes(tbin.Struct(tbin.F(2, tbin.I32v(5))))
 	in["pb-cut-int64-key"] = protoCutInInt64Key(in["pb-nested"])
 	in["pb-cut"] = in["pb-nested"][:len(in["pb-nested"])/2] // NOTE: not cut inside the packed list (p2j loops forever there: C06 finding)
 	in["pbjson-nested"] = []byte(`{"msg":"pb","items":[{"a":1,"b":"x"},{"a":2,"b":"y"}],"m":{"k1":5},"bin":"AAH/","code":7,"nums":[1,2,150]}`)
@@ -478,6 +530,20 @@ func newFixture() (*fixture, error) {
 		}
 		return strBytes(rs.header), nil
 	})
+	add("t2j.Do(sparse,field-70-absent)", func() ([]byte, error) {
+		cv := t2j.NewBinaryConv(conv.Options{WriteDefaultField: true})
+		return cv.Do(ctx, f.sparseT, in["thrift-sparse-without-70"])
+	})
+	add("t2j.Do(reply-wrapper,exception-100)", func() ([]byte, error) {
+		return f.t2jc.Do(ctx, f.fnM.Response(), in["thrift-reply-exception"])
+	})
+	add("t2j.Do(http,raw_body from IDL default)", func() ([]byte, error) {
+		// the body slice exactly as the response object was handed it
+		rs := &aliasSetter{}
+		cv := t2j.NewBinaryConv(conv.Options{EnableHttpMapping: true, WriteDefaultField: true})
+		_, err := cv.Do(context.WithValue(ctx, conv.CtxKeyHTTPResponse, rs), f.svc2.Functions()["D"].Response().Struct().FieldById(0).Type(), in["thrift-rb-without-body"])
+		return rs.body, err
+	})
 	add("j2p.Do(nested)", func() ([]byte, error) { return f.j2pc.Do(ctx, f.preqT, in["pbjson-nested"]) })
 	add("p2j.Do(nested)", func() ([]byte, error) { return f.p2jc.Do(ctx, f.preqT, in["pb-nested"]) })
 	add("p2j.Do(int64str,nested)", func() ([]byte, error) { return f.p2jc64.Do(ctx, f.preqT, in["pb-nested"]) })
@@ -620,7 +686,7 @@ func stable(v interface{}) string {
 
 // descMem is the fingerprint of every memory word reachable from the two service descriptors, unexported
 // fields included ("descriptor graphs: built once, must be read-only afterwards").
-func (f *fixture) descMem() (uint64, int) { return deephash.Of(f.svc, f.psvc) }
+func (f *fixture) descMem() (uint64, int) { return deephash.Of(f.svc, f.psvc, f.svc2) }
 
 // dumpDescs renders everything the public accessors expose of the shared descriptors.
 func (f *fixture) dumpDescs() string {
